@@ -5,6 +5,7 @@ import (
 	"sync"
 
 	"github.com/tychoish/fun/ft"
+	"github.com/tychoish/fun/verifhook"
 )
 
 func lock(mtx sync.Locker) sync.Locker { mtx.Lock(); return mtx }
@@ -140,6 +141,7 @@ func (wg *WaitGroup) Wait(ctx context.Context) {
 		default:
 			// block until the context is canceled or we
 			// are signaled.
+			verifhook.At("fun.WaitGroup.Wait.before-cond-wait")
 			wg.cond.Wait()
 
 			if wg.counter == 0 {
